@@ -45,11 +45,18 @@ def get_fns(key):
             mesh = Mesh.Mesh(coords, conns, None, pe, pe1, blocks, None, None)
             return FunctionSpace.construct_function_space_from_parent_element(mesh, shapeOnRef, quad, mode2D)
 
-        def mk(fs, pv):
+        def mk(fs, pv, hetero=False):
             model = mats.make_model(cfg, pv)
             if factory == 'single':
                 return Mechanics.create_mechanics_functions(fs, mode, model, pressureProjectionDegree=proj)
-            return Mechanics.create_multi_block_mechanics_functions(fs, mode, {k: model for k in fs.mesh.blocks}, pressureProjectionDegree=proj)
+            models = {k: model for k in fs.mesh.blocks}
+            if hetero:
+                # different constants per block (same constitutive family): block b gets its first modulus scaled by 1 + b
+                for b, k in enumerate(sorted(fs.mesh.blocks)):
+                    pvb = [float(v) for v in pv]
+                    pvb[0] *= 1.0 + b
+                    models[k] = mats.make_model(cfg, pvb)
+            return Mechanics.create_multi_block_mechanics_functions(fs, mode, models, pressureProjectionDegree=proj)
 
         @jax.jit
         def hess(coords, conns, blocks, U, state, dt, pv):
@@ -75,19 +82,20 @@ def get_fns(key):
             E = df.compute_algorithmic_energy(U, Up, state, dt)
             H = jax.hessian(lambda u: df.compute_algorithmic_energy(u, Up, state, dt))(U)
             return E, H, df.compute_element_hessians(U, Up, state, dt)
-        if proj is not None:
+        if proj is not None or factory == 'multi':
             # The pressure-projection factories build their projection shape functions with Python/numpy control flow at
-            # construction time and cannot be constructed under a trace: build them eagerly per case and compile per case.
-            def hess(coords, conns, blocks, U, state, dt, pv):
-                mf = mk(mkfs(coords, conns, blocks), [float(v) for v in pv])
+            # construction time and cannot be constructed under a trace; the multi-block factory is given concrete block element ids
+            # (as every caller does).  Both are built eagerly per case and compiled per case.
+            def hess(coords, conns, blocks, U, state, dt, pv, hetero=False):
+                mf = mk(mkfs(coords, conns, blocks), [float(v) for v in pv], hetero)
                 e = lambda u: mf.compute_strain_energy(u, state, dt)
                 return e(U), jax.jit(jax.hessian(e))(U)
 
-            def stiff(coords, conns, blocks, U, state, dt, pv):
-                return mk(mkfs(coords, conns, blocks), [float(v) for v in pv]).compute_element_stiffnesses(U, state, dt)
+            def stiff(coords, conns, blocks, U, state, dt, pv, hetero=False):
+                return mk(mkfs(coords, conns, blocks), [float(v) for v in pv], hetero).compute_element_stiffnesses(U, state, dt)
 
-            def update(coords, conns, blocks, U, state, dt, pv):
-                return mk(mkfs(coords, conns, blocks), [float(v) for v in pv]).compute_updated_internal_variables(U, state, dt)
+            def update(coords, conns, blocks, U, state, dt, pv, hetero=False):
+                return mk(mkfs(coords, conns, blocks), [float(v) for v in pv], hetero).compute_updated_internal_variables(U, state, dt)
 
             def dyn(coords, conns, blocks, U, Up, state, dt, pv, beta, rho):
                 model = mats.make_model(cfg, [float(v) for v in pv])._replace(density=rho)
@@ -120,7 +128,7 @@ def make_cases(cells, factory):
                 'pred': draw(st.floats(-1, 1))}
         return {'factory': factory, 'model': name, 'mode': mode, 'proj': proj, 'order': order, 'props': pr, 'mesh': mesh, 'amp': amp,
                 'ucoef': ucoef, 'nsteps': nsteps, 'bcs': bcs, 'nblocks': nblocks, 'bseed': bseed, 'dyn': dynp,
-                'dtrel': draw(gen.logfloat(-2, 2)), 'rshift': draw(st.floats(0.2, 2.0))}
+                'dtrel': draw(gen.logfloat(-2, 2)), 'rshift': draw(st.floats(0.2, 2.0)), 'hetero': draw(st.booleans())}
     return cases
 
 
@@ -190,8 +198,9 @@ def check(case):
             Up = U * d['pred']
             E, H, Ke = F['dyn'](*geo, np.array(U), np.array(Up), np.array(state), d['dt'], pv, d['beta'], d['rho'])
         else:
-            E, H = F['hess'](*geo, np.array(U), np.array(state), dt, pv)
-            Ke = F['stiff'](*geo, np.array(U), np.array(state), dt, pv)
+            het = {'hetero': True} if (case['factory'] == 'multi' and case.get('hetero')) else {}
+            E, H = F['hess'](*geo, np.array(U), np.array(state), dt, pv, **het)
+            Ke = F['stiff'](*geo, np.array(U), np.array(state), dt, pv, **het)
     K = SparseMatrixAssembler.assemble_sparse_stiffness_matrix(Ke, mesh.conns, dm).toarray()
     H = onp.asarray(H).reshape(2 * nn, 2 * nn)[onp.ix_(isunk, isunk)]
     if not (onp.isfinite(float(E)) and onp.all(onp.isfinite(H)) and onp.all(onp.isfinite(K))):
@@ -206,7 +215,7 @@ def check(case):
         asym = onp.abs(K - K.T).max()
         if asym > 1e-10 * onp.abs(K).max():
             fails.append(Failure('symmetry', '%s: max|K - K^T| = %.3e max|K|' % (what, asym / onp.abs(K).max())))
-    if case['factory'] == 'multi' and not fails:
+    if case['factory'] == 'multi' and not case.get('hetero') and not fails:
         S = get_fns(('single', case['model'], case['mode'], case['proj'], case['order'], max(qdeg, 1)))
         with capture_stdout():
             E1, H1 = S['hess'](*geo, np.array(U), np.array(state), dt, pv)
@@ -223,6 +232,8 @@ def check(case):
             fails.append(Failure('block-split-state', '%s: updated internal variables differ by %.3e' % (what, onp.abs(sm - s1).max())))
     nbc = int((~isunk).sum())
     classes = [case['factory'], case['model'], case['mode'], 'proj-%s' % case['proj'], 'order%d' % case['order'], 'evolved' if evolved else 'virgin']
+    if case['factory'] == 'multi':
+        classes.append('different-materials' if case.get('hetero') else 'same-material')
     nt = bool(onp.abs(U).max() > 0 and 0 < nbc < isunk.size and (evolved or cfg.state == 'none'))
     return Result(fails, classes=classes, nontrivial=nt)
 
@@ -234,13 +245,13 @@ GROUPS = {
     'axisymmetric': ('single', [('neohookean/adagio', AX, None, 1), ('linear-elastic/linear', AX, None, 2), ('neohookean/coupled', AX, 0, 2)], 2),
     'j2': ('single', [('j2/small/linear', PS, None, 1), ('j2/large/voce', PS, None, 1)], 3),
     'visco': ('single', [('visco1', PS, None, 1)], 2),
-    'multi-block': ('multi', [('neohookean/adagio', PS, None, 1), ('neohookean/adagio', PS, None, 2), ('neohookean/adagio', PS, 0, 2)], 3),
+    'multi-block': ('multi', [('neohookean/adagio', PS, None, 1), ('neohookean/adagio', PS, None, 2)], 3),
     'dynamics': ('dynamics', [('neohookean/adagio', PS, None, 1), ('linear-elastic/linear', PS, None, 2), ('neohookean/coupled', AX, None, 1), ('neohookean/adagio', PS, 0, 2)], 2),
 }
 THOROUGH_EXTRA = {
     'j2': [('j2/large/linear', PS, None, 2), ('j2/seth/power law', PS, None, 1)],
     'visco': [('visco1', AX, None, 1), ('visco3', PS, None, 1)],
-    'multi-block': [('j2/small/linear', PS, None, 1)],
+    'multi-block': [('j2/small/linear', PS, None, 1), ('neohookean/adagio', PS, 0, 2)],
     'ps-elastic': [('neohookean/adagio', PS, None, 3), ('linear-elastic/green lagrange', PS, None, 2)],
 }
 import os as _os
